@@ -92,6 +92,8 @@ pub struct Cfg {
     pub file: Vec<u8>,
     pub idw: u8,
     pub truth: Option<Vec<u8>>,
+    /// names created by the filestore requests of the script's Metadata PDU (C13 oracle)
+    pub reqs: Vec<String>,
 }
 impl Cfg {
     pub fn parse(hdr: &[String]) -> Cfg {
@@ -113,6 +115,7 @@ impl Cfg {
             file: vec![],
             idw: 1,
             truth: None,
+            reqs: vec![],
         };
         for kv in &hdr[1..] {
             let Some((k, v)) = kv.split_once('=') else { continue };
@@ -142,6 +145,7 @@ impl Cfg {
                 "file" => c.file = unhex(v),
                 "idw" => c.idw = v.parse().unwrap(),
                 "truth" => c.truth = Some(unhex(v)),
+                "reqs" => c.reqs = v.split(',').filter(|x| !x.is_empty()).map(|x| x.to_string()).collect(),
                 _ => {}
             }
         }
@@ -192,6 +196,20 @@ impl Cfg {
 
 // ---------------------------------------------------------------- PDU text
 
+/// A filestore response is printed as the request it answers (action, names): the transaction models
+/// decide when and in which order requests run and how responses are reported, not what a request does;
+/// status and message are checked by the C13 oracle on the real values.
+pub fn resp_canon(r: &FileStoreResponse) -> Vec<u8> {
+    let mut b = vec![r.action_and_status.as_u8() & 0xF0];
+    let f1 = r.first_filename.as_str().as_bytes();
+    b.push(f1.len() as u8);
+    b.extend(f1);
+    let f2 = r.second_filename.as_str().as_bytes();
+    b.push(f2.len() as u8);
+    b.extend(f2);
+    b
+}
+
 pub fn payload_text(p: &PDUPayload) -> String {
     match p {
         PDUPayload::FileData(FileDataPDU::Unsegmented(d)) => format!("FD {} {}", d.offset, hex(&d.file_data)),
@@ -209,7 +227,7 @@ pub fn payload_text(p: &PDUPayload) -> String {
                 );
                 for r in &f.filestore_response {
                     s.push(' ');
-                    s.push_str(&hex(&r.clone().encode()));
+                    s.push_str(&hex(&resp_canon(r)));
                 }
                 s
             }
@@ -379,7 +397,7 @@ pub(crate) fn ind_text(i: &Indication) -> String {
             );
             for r in &f.filestore_responses {
                 s.push(' ');
-                s.push_str(&hex(&r.clone().encode()));
+                s.push_str(&hex(&resp_canon(r)));
             }
             s
         }
@@ -424,6 +442,8 @@ pub struct Obs {
     pub pr: u64,
     pub dest: Option<Vec<u8>>,
     pub idle: Option<(usize, u64)>,
+    /// not printed: which of the names of cfg.reqs exist in the filestore (C13 oracle)
+    pub req_exists: Vec<bool>,
 }
 impl Obs {
     pub fn line(&self) -> String {
@@ -654,7 +674,8 @@ pub fn run(ops: &str, is_recv: bool, out: &mut impl Write, orc: &mut impl Write)
                     Tx::S(x) => (x.verif_get_state(), x.verif_has_pdu_to_send(), x.verif_until_timeout(), x.verif_progress()),
                 };
                 let dest = if is_recv { std::fs::read(root.join(&cfg.dst)).ok() } else { None };
-                let obs = Obs { res: res.clone(), pdus, inds, st, hp, ut, pr, dest, idle: idle_info };
+                let req_exists: Vec<bool> = cfg.reqs.iter().map(|n| root.join(n).exists()).collect();
+                let obs = Obs { res: res.clone(), pdus, inds, st, hp, ut, pr, dest, idle: idle_info, req_exists };
                 writeln!(out, "{}", obs.line()).unwrap();
                 oracle.step(k, l, &obs, orc);
                 // the transaction's select! loop ends on a fatal error and when the state is Terminated
